@@ -515,6 +515,10 @@ func setPositions(p *g.Prod, style int) {
 		if q.Body != nil && q.Static == nil {
 			q.HasPos, q.HasEndPos, q.HasTokens = true, true, true
 			q.PosStyle = style
+			if style == 4 {
+				// EndPos and Tokens without a Pos field
+				q.HasPos, q.PosStyle = false, 0
+			}
 			for _, f := range q.Fields {
 				if f.Prod != nil {
 					rec(f.Prod)
@@ -673,7 +677,7 @@ func Positions(t Tier) []*Grammar {
 		every = 6
 	}
 	var out []*Grammar
-	for style := 0; style < 4; style++ {
+	for style := 0; style < 6; style++ { // 4: EndPos / Tokens without Pos; 5: Pos and EndPos of different (convertible) types
 		sel := thin(ts, every)
 		if style > 0 {
 			sel = thin(ts, every*8)
